@@ -12,7 +12,7 @@
     src/common/file_traits.rs       the *default* vectored methods of FileReadWriteVolatile
     src/common/file_buf.rs          `Bytes<usize> for FileVolatileSlice`  (section Adapter)
 
-  Memory is `region id → List UInt8`; a buffer is a `Seg = (region, off, len)`; the dirty log
+  Memory is `region id → List UInt8` (`Mem`); a buffer is a `Seg = (region, off, len)`; the dirty log
   (vm-memory `AtomicBitmap` behind `BaseSlice`) is the list of `(region, page index)` pairs that
   were set, for page size `p`.  Every raw copy appends the `(region, off, len)` it touches to
   `World.log`, which is what the in-bounds and dirty-tracking theorems speak about.
@@ -24,7 +24,12 @@
 namespace Fbr.Xport
 
 abbrev Bytes := List UInt8
-abbrev Mem := Nat → Bytes
+/-- guest memory / the borrowed buffers: region id → content (an association list, newest
+    binding first; `Mem.get`/`Mem.set` are the whole interface) -/
+structure Mem where
+  ents : List (Nat × Bytes)
+
+def Mem.get (m : Mem) (r : Nat) : Bytes := (m.ents.lookup r).getD []
 
 /-- `usize::MAX + 1` on the 64-bit targets the crate supports -/
 def USIZE : Nat := 2 ^ 64
@@ -68,13 +73,13 @@ inductive IoErr where
 
 /-! ### memory primitives -/
 
-def Mem.set (m : Mem) (r : Nat) (bs : Bytes) : Mem := fun x => if x = r then bs else m x
+def Mem.set (m : Mem) (r : Nat) (bs : Bytes) : Mem := ⟨(r, bs) :: m.ents.filter (fun e => e.1 != r)⟩
 
-def readSeg (m : Mem) (s : Seg) : Bytes := ((m s.region).drop s.off).take s.len
+def readSeg (m : Mem) (s : Seg) : Bytes := ((m.get s.region).drop s.off).take s.len
 
 def writeAt (bs : Bytes) (off : Nat) (d : Bytes) : Bytes := bs.take off ++ d ++ bs.drop (off + d.length)
 
-def Mem.write (m : Mem) (r off : Nat) (d : Bytes) : Mem := m.set r (writeAt (m r) off d)
+def Mem.write (m : Mem) (r off : Nat) (d : Bytes) : Mem := m.set r (writeAt (m.get r) off d)
 
 /-- concatenated content of a list of buffers -/
 def flat (m : Mem) : List Seg → Bytes
